@@ -22,6 +22,7 @@ type Obligation struct {
 	PC     string
 	Goal   string
 	Cover  bool // satisfiability check: expected sat
+	Reach  bool // reachability guard: anything but unsat is accepted
 	Static string // non-empty: decided without a solver: "ok" or failure reason
 	Pos    string
 	// results
@@ -53,6 +54,7 @@ type World struct {
 type Options struct {
 	InlineDepth int
 	Verbose     bool
+	ReachBlocks bool
 }
 
 // Engine verifies one top-level function (with inlined callees).
